@@ -250,17 +250,18 @@ def specEq (kind : String) (a b : Text) : Bool :=
 
 /-! ## C12 -/
 
-/-- replay a front/back schedule on the segment list -/
-def schedule : List Text → List Char → List (Option Text)
-  | _, [] => []
-  | l, 'f' :: cs =>
-    match l with
-    | s :: r => some s :: schedule r cs
-    | [] => none :: schedule [] cs
-  | l, _ :: cs =>
-    match l.getLast? with
-    | some s => some s :: schedule l.dropLast cs
-    | none => none :: schedule [] cs
+/-- replay a schedule (`true` = `next`, `false` = `next_back`) on the segment list as a
+double-ended iterator must: outputs, and the unconsumed middle -/
+def scheduleRem : List Text → List Bool → List (Option Text) × List Text
+  | l, [] => ([], l)
+  | [], _ :: σ => let x := scheduleRem [] σ; (none :: x.1, x.2)
+  | s :: r, true :: σ => let x := scheduleRem r σ; (some s :: x.1, x.2)
+  | s :: r, false :: σ =>
+    let x := scheduleRem (s :: r).dropLast σ
+    ((s :: r).getLast? :: x.1, x.2)
+
+def schedule (l : List Text) (σ : List Char) : List (Option Text) :=
+  (scheduleRem l (σ.map (· == 'f'))).1
 
 def parentSpec (p : Text) : Option Text :=
   let s := segs p
